@@ -4,6 +4,7 @@ reference answers come either from the extracted reference model (Spec.v, run
 by `modeldrv spec`) or from bookkeeping written directly from the property
 text below."""
 
+import os
 import engine
 import gen
 from engine import History, parse_snapshot, split_line, present
@@ -574,6 +575,8 @@ def alloc_merge_history(rng, hid):
         ops += ["ADD r 2", "BIND r 0 2 %s" % gen.lab_alpha(5)]
     if rng.chance(1, 4):
         return alloc_join_history(rng, hid)
+    if rng.chance(1, 5) and not os.environ.get("VERIF_NO_W8"):
+        return alloc_emptied_history(rng, hid)
     if rng.chance(1, 3):
         # a right graph with an unreachable vertex: merge() creates vertices and then returns Err; the ids stay handed out,
         # also after the created vertices have been collected
@@ -583,10 +586,26 @@ def alloc_merge_history(rng, hid):
     return History(hid, n, ops, {"cap": cap, "n": n})
 
 
+def alloc_emptied_history(rng, hid):
+    """every vertex the allocator handed out ends up in one group (or two) that is collected: the graph is empty again,
+    the allocator must not start over"""
+    cap = rng.pick([8, 16, 40])
+    k = rng.pick([2, 3, 5])
+    ops = ["NEW g %d" % cap]
+    ids = list(range(k))
+    for v in ids:
+        ops += ["NEXT g", "ADD g %d" % v]
+    for v in ids[1:]:
+        ops.append("BIND g %d %d %s" % (ids[rng.below(ids.index(v))], v, gen.lab_alpha(v)))
+    ops += ["PUT g %d V01" % ids[-1], "KEYS g", "DATA g %d" % ids[-1], "KEYS g", "NEXT g", "NEXT g"]
+    ops += ["SCRIPT g %s" % "ADD($a); ADD($b); BIND($a, $b, x);".encode().hex(), "KEYS g", "NEXT g"]
+    return History(hid, 4, ops, {"cap": cap, "n": 4})
+
+
 def alloc_join_history(rng, hid):
     """an earlier merge() that unified two left vertices (the right graph reaches one vertex along two paths mapped to
-    different left vertices): the store has a removed slot from then on.  The model does not cover that merge (Unmodelled,
-    the comparison stops there); the property's own oracle still judges every later next_id() on the implementation's
+    different left vertices): the store has a removed slot from then on.  The extended model (XJoin.v) covers that merge
+    and the calls after it; the property's own oracle judges every later next_id() on the implementation's
     snapshots.  No collection afterwards (the unchanged code keeps the removed id in its group's member list)."""
     cap = rng.pick([16, 24, 40])
     a, b, c, d, e = (gen.lab_alpha(i) for i in range(5))
